@@ -56,13 +56,16 @@ TIERS = {
     "thorough": dict(gen="thorough", pairs=2000, overflow_runs=24, option_cases=10, max_runs=24000),
 }
 
-# Repairs of /repo that layer B (spec/Pipeline/PipelineImpl.tla, constant ImplFixes) should follow. Add the name
-# when the corresponding pending fix is committed in /repo:
+# Repairs of /repo that layer B (spec/Pipeline/PipelineImpl.tla, constant ImplFixes) follows. The transcription of
+# the code before a repair is kept selectable (VERIF_C04_IMPL_FIXES=none, or a comma-separated subset) so that the
+# check can be pointed at an older tree with VERIF_REPO:
 #   "unionDefault" (C04-union-second-default), "getEnumCycle" (C04-getenum-typedef-cycle),
 #   "dupArgs" (C04-duplicate-args-throws), "argDefaults" (C04-argument-default-identifiers),
 #   "lateGen" (C04-late-gen-entry-errors)
 # A stale list only produces MODEL-DRIFT lines; verdicts never depend on layer B.
-IMPL_FIXES = [x for x in os.environ.get("VERIF_C04_IMPL_FIXES", "").split(",") if x] or []
+ALL_IMPL_FIXES = ["unionDefault", "getEnumCycle", "dupArgs", "argDefaults", "lateGen"]   # all five are committed in /repo
+IMPL_FIXES = ([x for x in os.environ["VERIF_C04_IMPL_FIXES"].split(",") if x and x != "none"]
+              if "VERIF_C04_IMPL_FIXES" in os.environ else ALL_IMPL_FIXES)
 
 GEN_CFG = """SPECIFICATION Spec
 CONSTANTS
@@ -308,7 +311,9 @@ class Universe:
             shutil.rmtree(os.path.join(p["dir"], run["out"]), ignore_errors=True)
             return run
         with concurrent.futures.ThreadPoolExecutor(max_workers=vlib.NCPU) as ex:
-            list(ex.map(one, runs))
+            for k, _ in enumerate(ex.map(one, runs), 1):
+                if k % 5000 == 0:
+                    vlib.log("%d / %d runs done" % (k, len(runs)))
 
     def validate(self, runs, tag):
         """TLC judges the runs against layer A; returns (accepted ids, {id: broken})"""
